@@ -34,6 +34,10 @@ func main() {
 		debugExtents(os.Args[2:])
 		return
 	}
+	if id == "glue" && len(os.Args) > 2 {
+		debugGlue(os.Args[2:])
+		return
+	}
 	if id == "protospec" {
 		debugProtoSpec(os.Args[2:])
 		return
